@@ -62,7 +62,7 @@ def required_counters(tier):
         "raise.with_tentative": 100,
         "pass.repeated": 500,
         "probes": 1000,
-        "array.nested_annotation": 300,
+        "array.nested_annotation": 300, "nested_array_events.failed": 300,
         "suite.events": 1000,
         "suite.failed_or_raised_events": 100,
     }
@@ -437,6 +437,54 @@ def scen_tuple_leaf(rec, rng, single, variadic, state, args):
         rec.count("fail.tuple_leaf_2nd")
 
 
+def scen_union_leaf(rec, rng, single, variadic, state, args):
+    """array checks NESTED inside a PyTree check are isinstance checks too: the first alternative of a
+    Union leaf type binds an axis and then fails, the second passes, the tree passes - nothing of the
+    failed alternative may stay bound. Observed per event with the check-trace monitor."""
+    import jaxtyping
+
+    from ..monitor import checktrace
+
+    n1, n2, n3 = rng.sample(NAMES5, 3)
+    A1, A2 = Ann("Float", f"{n1} 3"), Ann("Float", f"{n2} 4")
+    L = typing.Union[A1, A2] if rng.random() < 0.7 else typing.Optional[A1]
+    k = single.get(n2, rng.choice((2, 5)))
+    m = rng.randint(1, 3)
+    leaves = [real.np_array((k, 4)) for _ in range(m)]
+    value = leaves if rng.random() < 0.5 else {"p": tuple(leaves)}
+    ann = jaxtyping.PyTree[L] if rng.random() < 0.5 else jaxtyping.PyTree[L, "T"]
+    desc = {"family": "union-leaf", "state": state, "L": f"Union[Float['{n1} 3'], Float['{n2} 4']]", "leaves": m, "rngkey": _CUR["rngkey"]}
+    bad = []
+
+    def hook(phase, ev):
+        if ev["kind"] != "array":
+            return
+        if phase == "enter":
+            ev["before"] = real.raw_transcript()
+        elif ev["result"] is not True and ev.get("before") is not None:
+            after = real.raw_transcript()
+            if after != ev["before"]:
+                bad.append((getattr(ev["ann"], "__name__", "?"), ev["before"], after))
+
+    if not checktrace.attach():
+        return
+    checktrace.start(hook=hook)
+    try:
+        got = real.check(value, ann)
+    finally:
+        log = checktrace.stop()
+    rec.case((desc["L"], m, sorted(single.items())), nontrivial=True)
+    rec.count("nested_array_events", sum(1 for e in log if e["kind"] == "array" and e["depth"] > 0))
+    rec.count("nested_array_events.failed", sum(1 for e in log if e["kind"] == "array" and e["depth"] > 0 and e["result"] is not True))
+    if bad:
+        rec.violation("rollback-nested", desc, f"inside the PyTree check, the array check against {bad[0][0]} failed but changed the bindings: {bad[0][1]!r} -> {bad[0][2]!r}", mechanism="stale-binding-after-False-nested-in-pytree")
+        return
+    if got == "ok" and L is not typing.Optional[A1] and n1 not in single:
+        rs, rv, rt = real.bindings()
+        if n1 in rs:
+            rec.violation("rollback-nested", desc, f"tree accepted via the second alternative but {n1!r} (bound by the failed first alternative) is still bound: {rs}", mechanism="stale-binding-after-False-nested-in-pytree")
+
+
 def scen_evil_leaf(rec, rng, single, variadic, state, args):
     import jaxtyping
 
@@ -526,6 +574,7 @@ SCENARIOS = (
     (scen_faulty_duck, 25),
     (scen_pytree, 25),
     (scen_tuple_leaf, 6),
+    (scen_union_leaf, 8),
     (scen_evil_leaf, 10),
     (scen_faulty_flatten, 6),
     (scen_unbound_struct, 4),
